@@ -75,7 +75,7 @@ def gen(rng, kind, tier):
         spec = _grid(rng, dim)
         f = {"type": str(rng.choice(["noise", "smooth", "waves", "droplets"])), "seed": int(rng.integers(1 << 30))}
         return {"grid": spec, "field": f, "stretch": float(2.0 ** int(rng.integers(-6, 7))),
-                "scale": float(rng.choice([-1.0, 2.0, 0.125, -3.5, 1e3, 1e-3])),
+                "scale": float(rng.choice([-1.0, 2.0, 0.125, -3.5, 1e3, 1e-3, 1e-6, 1e-9, 1e7, -1e-5])),
                 "roll": [int(rng.integers(-n, n + 1)) for n in spec["shape"]]}
     if kind in ("peak", "wave"):
         spec = _grid(rng, dim, safe_peak=True)
@@ -90,7 +90,7 @@ def gen(rng, kind, tier):
         cmax = 0.9 / math.sqrt(max(spec["shape"])) / hmax
         exps = [e for e in range(-6, 7) if 2.0 ** e <= cmax]
         return {"grid": spec, "field": f, "stretch": float(2.0 ** int(rng.choice(exps))),
-                "scale": float(rng.choice([-1.0, 2.0, 0.125, -3.5])), "roll": [int(rng.integers(-n, n + 1)) for n in spec["shape"]]}
+                "scale": float(rng.choice([-1.0, 2.0, 0.125, -3.5, 1e-6, 1e6, -1e-8])), "roll": [int(rng.integers(-n, n + 1)) for n in spec["shape"]]}
     if kind == "count" and rng.random() < 0.4:
         # well separated droplets with offset/amplitude: the count is known in advance
         spec = _grid(rng, dim)
